@@ -76,6 +76,7 @@ type PathCtx struct {
 	violations  []*Violation
 	userData    map[string]value
 	inSched     bool
+	inBlock     bool
 	randN, randRun int
 	pins        map[*Term]uint64
 	noteTexts   []string
